@@ -1,0 +1,12 @@
+//go:build verif
+// +build verif
+
+package core
+
+// VerifCancelFuncs returns the number of cancel functions of calls in progress that the
+// client holds for Abort. Only present in builds with the verif tag.
+func (c *Client) VerifCancelFuncs() int {
+	c.cancelLock.Lock()
+	defer c.cancelLock.Unlock()
+	return c.cancelFuncs.Len()
+}
